@@ -482,6 +482,9 @@ Definition pred_c07 (g : ghost) (w : world) (a : action) (O : oracle) (w' : worl
 
 (* ---- C12: one-time secrets ---------------------------------------------------------------- *)
 (* the TOTP code that completed this account's most recent TOTP step (ghost entries tagged "totp:") *)
+(* a TOTP code is its digits, however it was typed: "123456", " 123456", "123 456" are the same code *)
+Definition code_digits (s : bytes) : bytes := filter (fun b => negb (is_go_space b)) s.
+
 Definition last_totp (g : ghost) (U : bytes) : option bytes :=
   fold_left (fun acc p => if beqb (fst p) U && bprefix (bs "totp:") (snd p) then Some (skipn 5 (snd p)) else acc) (g_used g) None.
 
@@ -529,12 +532,12 @@ Definition pred_c12 (g : ghost) (w : world) (a : action) (O : oracle) (w' : worl
               if bempty rc then
                 match user_of w U with
                 | Some u => (* the same code: as the validator reads it, i.e. without surrounding white space *)
-                            (if negb (bempty (u_totp_last u)) && beqb (trim_space (u_totp_last u)) (trim_space (aget f_code vals))
+                            (if negb (bempty (u_totp_last u)) && beqb (code_digits (u_totp_last u)) (code_digits (aget f_code vals))
                              then [1124] else []) ++
                             (* ... and whatever was tried in between: the code of this account's previous
                                completed TOTP step does not complete the next one *)
                             (if c_onetime cfg &&
-                                match last_totp g U with Some c => beqb c (trim_space (aget f_code vals)) | None => false end
+                                match last_totp g U with Some c => beqb (code_digits c) (code_digits (aget f_code vals)) | None => false end
                              then [1128] else [])
                 | None => [] end
               else (if used_before g U rc then [1122] else []) ++ (if rc_valid u' rc then [1123] else [])
